@@ -358,6 +358,12 @@ func c13Run(c *core.Ctx, idx int) {
 		}
 		lines = util.Shuffle(c.Rng, lines)
 	}
+	tenants := c.Rng.Intn(4) == 0
+	if tenants {
+		lines = append(lines, "||s3.amazonaws.com^$third-party", "||amazonaws.com^$~third-party", "/ads.js$third-party,script", "||cloud.fedoraproject.org^$third-party", "||fedoraproject.org^$first-party")
+		lines = util.Shuffle(c.Rng, lines)
+		c.Event("histories_with_tenants_of_a_nested_public_suffix", 1)
+	}
 	// Rules whose $client value mixes names with addresses or networks.
 	type mixedClient struct {
 		host, name      string
@@ -446,6 +452,22 @@ func c13Run(c *core.Ctx, idx int) {
 			q.Source = []string{"http://site.com/", "http://site.com/app/page", "http://site.com/other", "https://site.com/app/", "https://site.com/"}[c.Rng.Intn(5)]
 		}
 		pool = append(pool, c13Op{Kind: []string{"web", "all"}[c.Rng.Intn(2)], Req: q})
+	}
+	if tenants {
+		// Sites that are tenants of a public suffix nested below a registrable
+		// domain, the parent itself, and sites directly under the parent, asking
+		// each other; host names of the same families as DNS queries in between.
+		fam := [][]string{
+			{"bucket-a.s3.amazonaws.com", "bucket-b.s3.amazonaws.com", "status.amazonaws.com", "amazonaws.com", "s3.amazonaws.com"},
+			{"x.cloud.fedoraproject.org", "y.cloud.fedoraproject.org", "www.fedoraproject.org", "fedoraproject.org"},
+		}[c.Rng.Intn(2)]
+		for i := 0; i < 8; i++ {
+			u, s := fam[c.Rng.Intn(len(fam))], fam[c.Rng.Intn(len(fam))]
+			pool = append(pool, c13Op{Kind: []string{"web", "all"}[c.Rng.Intn(2)], Req: &gen.Req{URL: "https://" + u + "/ads.js", Source: "https://" + s + "/", Type: rules.TypeScript}})
+			if i%3 == 0 {
+				pool = append(pool, c13Op{Kind: "dns", Req: &gen.Req{HostnameReq: true, Host: u, DNSType: 1}})
+			}
+		}
 	}
 	for i := 0; i < 4; i++ {
 		pool = append(pool, c13Op{Kind: "cosmetic", Host: c15Hostnames[c.Rng.Intn(len(c15Hostnames))], Flag: c.Rng.Intn(8)})
@@ -582,6 +604,7 @@ func init() {
 		Level: "exploration",
 		Rule: "per case one list of 15..65 lines (rules with per-request modifiers $client/$ctag/$dnstype, $dnsrewrite rules and exceptions, badfilter twins, regexps that do not compile, cosmetic rules, hosts lines, referrer-level exceptions), String- or File-backed, and one history of 40..160 (thorough 50..400) operations drawn with heavy repetition from 26 distinct DNS / web / MatchAll / cosmetic queries (consecutive DNS queries with and without client name, address, tags, record type) interleaved with DNSRewrites, DNSRewritesAll, GetBasicResult, GetCosmeticOption, GetDNSBasicRule and NewMatchingResult on OLD results; " +
 			"one history in three has rules whose $client value mixes names and networks, asked from one address under several names and from several addresses under one name; " +
+			"one history in four has tenants of nested public suffixes (s3.amazonaws.com, cloud.fedoraproject.org), their parents and $third-party rules; " +
 			"oracle: every answer == the answer of a fresh engine over the same bytes (memoised per distinct query), and every kept result object re-snapshotted after every later operation == its snapshot at return; plus one long history over 1 500 (thorough 75 000) rules in which nearly all of them are retrieved by queries that contain one rule's key twice; non-trivial = every history; distinct by list and length",
 		Assumptions: []string{
 			"snapshots cover the exported state of results and rules (texts, flags, list ids, shortcut, rewrite values, slice contents and order)",
